@@ -17,6 +17,7 @@
 //!            | ["offer", sid, data] | ["try_write_rest"|"write_rest", sid] (write the rest of the offer, advance by the count)
 //!            | ["split", sid] | ["reunite", sid] | ["drop"|"drop_r"|"drop_w", sid]
 //!            | ["addrs", sid] | ["count"] | ["count_on", h]
+//!            | ["link", "hold"|"release"|"partition"|"repair"|"partition_oneway"|"repair_oneway", a, b]  (turmoil::hold & co. from host code)
 //! A successful connect `cid` registers the stream under the same id.
 //! output = {"res": [[step, host, idx, result]..], "post": [[links, counts]..]}
 //! result = "pending" | ["ok", ..] | ["err", "<ErrorKind>"] | "none" | "invalid"
@@ -441,6 +442,21 @@ fn exec(cmd: &Value, st: &mut HostState, ips: &[IpAddr], v6: bool, cx: &mut Cont
         "count_on" => {
             let h = cmd[1].as_u64().unwrap() as usize;
             json!(["ok", turmoil::established_tcp_stream_count_on(ips[h])])
+        }
+        // the fault calls of host code (turmoil::hold & co. through World::current)
+        "link" => {
+            let a = ips[cmd[2].as_u64().unwrap() as usize];
+            let b = ips[cmd[3].as_u64().unwrap() as usize];
+            match cmd[1].as_str().unwrap() {
+                "hold" => turmoil::hold(a, b),
+                "release" => turmoil::release(a, b),
+                "partition" => turmoil::partition(a, b),
+                "repair" => turmoil::repair(a, b),
+                "partition_oneway" => turmoil::partition_oneway(a, b),
+                "repair_oneway" => turmoil::repair_oneway(a, b),
+                other => panic!("unknown link call {other}"),
+            }
+            json!("none")
         }
         _ => panic!("unknown host cmd {name}"),
     }
